@@ -171,21 +171,25 @@ class TailerIter(StreamOp):
         ex.globals['deque'] = DequeCtor()
         return st
 
-    def lastn(self, seq):
-        ln = z3.Length(seq)
-        return z3.If(ln <= self.n, seq, z3.SubSeq(seq, ln - self.n, self.n))
-
+    # "out is the last n elements of the input"  <=>  input == dropped ++ out  and  len(out) == min(n, len(input)),
+    # with the ghost `dropped` (what the bounded deque discarded) as the witness of the prefix.
     @property
     def loops(self):
         def inv(s, ex):
             d = s.env['data']
-            return z3.And(self.live(s), d.get(s, 'q') == self.lastn(self.seen(s)), self.out(s) == V.EMPTY)
+            q, dr = d.get(s, 'q'), d.get(s, 'dropped')
+            return z3.And(self.live(s), z3.Concat(dr, q) == self.seen(s), z3.Length(q) <= self.n,
+                          z3.Implies(z3.Length(dr) > 0, z3.Length(q) == self.n), self.out(s) == V.EMPTY)
         return {0: LoopSpec(inv=inv, keep=('data',))}
 
     def post(self, ex, outs):
         for k, s, p in outs:
             if k in ('normal', 'return'):
-                ex.oblige(s, 'exit: out == last n elements of the input', self.out(s) == self.lastn(self.seen(s)))
+                d = s.env['data']
+                seen, out = self.seen(s), self.out(s)
+                L = z3.Length(seen)
+                ex.oblige(s, 'exit: out == last n elements of the input (input == prefix ++ out, len(out) == min(n, len(input)))',
+                          z3.And(seen == z3.Concat(d.get(s, 'dropped'), out), z3.Length(out) == z3.If(L < self.n, L, self.n)))
                 ex.oblige(s, 'exit: the source is exhausted', self.src.done(s))
 
 
@@ -274,3 +278,114 @@ class UnbatcherIter(StreamOp):
 
 
 UNITS = [MapperIter, FilterIter, HeaderIter, TailerIter, BatcherIter, UnbatcherIter]
+
+
+# ---------------------------------------------------------------- shuffle (permutation = multiset equality, pointwise in an arbitrary w)
+class ShuffleLemmas:
+    w = z3.Const('any_w', Val)
+    cnt = SpecFn('cnt_w', lambda acc, x: acc + z3.If(x == z3.Const('any_w', Val), 1, 0), result_sort=z3.IntSort(),
+                 empty=z3.IntVal(0)).hom(lambda p, q: p + q)
+
+
+from pyvc.unit import LemmaUnit
+
+
+class CountLemmas(LemmaUnit):
+    prop = 'C03'
+    qual = 'lemma(count)'
+
+    def lemmas(self):
+        L = ShuffleLemmas
+        yield from L.cnt.hom_obligations()
+        s = z3.Const('lem_s', SeqV)
+        i = z3.Int('lem_i')
+        n = z3.Length(s)
+        yield ('sequence split: s == s[:i] ++ [s[i]] ++ s[i+1:] for 0 <= i < len(s)', [i >= 0, i < n],
+               s == z3.Concat(z3.SubSeq(s, 0, i), z3.Unit(s[i]), z3.SubSeq(s, i + 1, n - i - 1)))
+
+
+class RandRange(Fn):
+    trusted = 'random.randrange(n) returns an int in [0, n)'
+
+    def __init__(self):
+        def f(ex, st, args, kwargs, node):
+            from pyvc.core import as_int
+            n = as_int(ex, st, args[0])
+            r = fresh('rand', z3.IntSort())
+            return [('ok', st.fork().assume(r >= 0, r < n), r)]
+        super().__init__(f, trusted=self.trusted, name='random.randrange')
+
+
+class ShufflerIter(StreamOp):
+    qual = 'Shuffler.__iter__'
+    trusted = ('random.shuffle(list) permutes the list in place (same multiset, same length)',)
+    assumed_contracts = ('count/split lemmas: proved by unit C03:lemma(count)',)
+    canaries = (
+        ('loses the replaced element', '                yield y', '                pass', 'invariant preserved'),
+        ('overwrites without yielding the old one', 'y = buffer[idx]', 'y = x', 'invariant preserved'),
+        ('final buffer not flushed', 'yield from buffer', 'pass', 'permutation'),
+    )
+
+    def setup(self, ex):
+        st = St()
+        self.bsz = z3.Int('buffer_size')
+        st.assume(self.bsz > 0)
+        self.cnt = ShuffleLemmas.cnt
+        st.assume(*self.cnt.base_facts())
+        self.mk_self(ex, st, _buffersize=self.bsz)
+        ex.globals['random'] = Module('random')
+        ex.globals['random.randrange'] = RandRange()
+        return st
+
+    def fns(self):
+        return (ShuffleLemmas.cnt,)
+
+    def on_call(self, ex, st, e, src):
+        if src == 'random.shuffle':
+            (k, s, v), = ex.ev(e.args[0], st)
+            nm = e.args[0].id
+            new = fresh('shuffled', SeqV)
+            s = s.fork().assume(z3.Length(new) == z3.Length(v), self.cnt(new) == self.cnt(v))
+            s.env[nm] = new
+            return [('ok', s, NONE)]
+        return None
+
+    def on_seq_store(self, ex, st, old, i, x, new):
+        n = z3.Length(old)
+        A, B = z3.SubSeq(old, 0, i), z3.SubSeq(old, i + 1, n - i - 1)
+        oi = old[i]
+        c = self.cnt
+        st.assume(old == z3.Concat(A, z3.Unit(oi), B))           # lemma "sequence split"
+        for e in (x, oi):
+            st.assume(c.concat_fact(A, z3.Concat(z3.Unit(e), B)), c.concat_fact(z3.Unit(e), B))
+            st.assume(*c.snoc_facts(V.EMPTY, e, z3.Unit(e)))
+        st.assume(new == z3.Concat(A, z3.Concat(z3.Unit(x), B)))
+
+    def on_yield(self, ex, st, val, node):
+        st.ghost['out'] = snoc(st, st.ghost['out'], val, (self.cnt,))
+
+    def on_seq_append(self, ex, st, old, x, new):
+        st.assume(*self.cnt.snoc_facts(old, x, new))
+
+    def on_yield_from_seq(self, ex, st, seq, node):
+        st.assume(self.cnt.concat_fact(st.ghost['out'], seq))
+        return super().on_yield_from_seq(ex, st, seq, node)
+
+    @property
+    def loops(self):
+        def inv(s, ex):
+            b = s.env['buffer']
+            return z3.And(self.live(s), s.env['buffersize'] == self.bsz, z3.Length(b) <= self.bsz,
+                          self.cnt(self.out(s)) + self.cnt(b) == self.cnt(self.seen(s)),
+                          z3.Length(self.out(s)) + z3.Length(b) == z3.Length(self.seen(s)))
+        return {0: LoopSpec(inv=inv, keep=('randrange',))}
+
+    def post(self, ex, outs):
+        for k, s, p in outs:
+            if k in ('normal', 'return'):
+                ex.oblige(s, 'exit: out is a permutation of the input (same length; same count of an arbitrary value w)',
+                          z3.And(self.cnt(self.out(s)) == self.cnt(self.seen(s)), z3.Length(self.out(s)) == z3.Length(self.seen(s)),
+                                 self.src.done(s)))
+
+
+UNITS += [CountLemmas, ShufflerIter]
